@@ -63,7 +63,7 @@ impl Property for C10 {
         vec!["all values with n<=8 x every partner length <=12 (>= significant bits) x 20 types".into()]
     }
     fn enumerate(&self, tier: Tier, sh: &mut Shard, f: &mut dyn FnMut(C10Case) -> bool) {
-        for t in 0..NT {
+        for t in ROUTINE_TIDS {
             let c = fixed_cap(t).unwrap_or(usize::MAX);
             for n in 0..=8usize.min(c) {
                 if !sh.mine() {
@@ -110,7 +110,30 @@ impl Property for C10 {
                 }
             }
         }
-        for t in 0..NT {
+        // the 70 400-bit fixed type and a geometric ladder of lengths up to megabits (Bvd, Bv)
+        let mut long: Vec<(Tid, usize)> = HUGE_TYPE_LENS.iter().map(|&n| (TID_HUGE, n)).collect();
+        long.extend(ladder_lengths(tier));
+        for (t, n) in long {
+            if !sh.mine() {
+                continue;
+            }
+            let c = fixed_cap(t).unwrap_or(usize::MAX);
+            let mut vals = vec![dense_value(n), Bits::from_u128(0xdead_beef, n)];
+            let mut gap = dense_value(n);
+            for i in (n / 2)..n {
+                gap.0[i] = false;
+            }
+            vals.push(gap);
+            for a in vals {
+                for (m, yprov) in [(n + 1, Prov::Canon), (n + 4099, Prov::Spare(200)), (a.significant().max(1), Prov::Canon), (n, Prov::LongThenTrunc(130))] {
+                    let m = m.min(c);
+                    if !f(C10Case { x: Operand::canon(t, a.clone()), y: Operand { ty: t, bits: a.zext(m), prov: yprov } }) {
+                        return;
+                    }
+                }
+            }
+        }
+        for t in ROUTINE_TIDS {
             let c = fixed_cap(t).unwrap_or(320);
             let w = WORD_BITS[t as usize];
             for n1 in 0..=c {
